@@ -84,6 +84,11 @@ def dump_obj(o):
     if isinstance(o, np.ndarray) or isinstance(o, jnp.ndarray):
         a = np.asarray(o, dtype=np.float64)
         return dict(type="arr", head=tuple(a.shape), fields={"data": a})
+    # [approx-feature] LRBF/LSEM conditionals (subclasses of ConditionalGaussianPDF: must come first)
+    from machine_approx import dump_feature
+    d = dump_feature(o)
+    if d is not None:
+        return d
     if isinstance(o, gt_measure.GaussianMeasure):
         if isinstance(o, gt_pdf.GaussianDiagPDF):
             cls = "diagpdf"
@@ -139,6 +144,9 @@ def parse_dump(tokens):
         head = (int(tokens[1]), int(tokens[2]), int(tokens[3]), int(tokens[4])); pos = 5
     elif t == "condid":
         head = (int(tokens[1]), int(tokens[2]), int(tokens[3])); pos = 4
+    elif t == "feat":   # [approx-feature]
+        from machine_approx import parse_feature_head
+        head, pos = parse_feature_head(tokens)
     elif t == "empty":
         return dict(type="empty", head=(), fields={})
     else:
